@@ -7,7 +7,7 @@ def run_mir(tier, seed):
     import sys, pathlib
     sys.path.insert(0, str(pathlib.Path(__file__).resolve().parent.parent.parent / "mirsmt"))
     import mir_check, dn
-    return mir_check.run_obligations([dn.ob_san])
+    return mir_check.run_obligations([dn.ob_san, dn.ob_auto_serial, dn.ob_ext_presence])
 
 
 def spec(tier, seed):
@@ -30,9 +30,7 @@ def spec(tier, seed):
     qs += [csr_query("c05", s, O_C05) for s in csrs] + [crl_query("c05", s, O_C05) for s in crls]
     return {"queries": qs, "mir": run_mir, "exhaustive": False,
             "bounds": "profile predicate over the decoded artefact for the listed shapes",
-            "outside": "the automatic serial number clause (positive, <= 20 octets): the code is inline in the TBS closure and reads a ring Digest, "
-                       "which the harness can only build by transmute; CBMC then no longer constant-propagates its first byte, the INTEGER length becomes "
-                       "symbolic and the query did not finish in 20 min (tried: pinned digest bytes, typed-static as_ref stub); SAN non-critical when the subject is non-empty (names are empty here; the M fact 'critical = entries.is_empty()' covers it); "
+            "outside": "the automatic serial number inside a whole-artefact Kani query (the transmuted ring Digest defeats CBMC's constant propagation): it is decided instead by engine M (auto_serial: the INTEGER is written from SHA-256(public key)[0..20] with the top bit cleared, non-negative) together with the Kani unit bigint_unit (C04: such bytes give a positive INTEGER of at most 20 octets); SAN non-critical when the subject is non-empty (names are empty here; the M fact 'critical = entries.is_empty()' covers it); "
                        "'non-zero' automatic serial fails only for a digest starting with 20 zero bytes after masking (2^-159), outside what a hash-derived "
                        "serial can promise - reported here, not as a finding",
             "assumptions": ["S1, S2, S3", "array-backed enum vectors"]}
